@@ -165,6 +165,9 @@ pub struct TypeChecker {
     /// Parameters with a default value, per callable declared in this module (`name` or `Type.method`).
     /// A callable without an entry (builtin, imported) has an unknown set and is not checked for missing arguments.
     pub(crate) param_defaults: HashMap<String, HashSet<String>>,
+    /// Variables of the `for` loops being checked (innermost last). A loop variable cannot be re-assigned, but its
+    /// fields and elements can be written: the emitter then iterates mutably over the collection.
+    pub(crate) loop_variables: Vec<String>,
 }
 
 impl TypeChecker {
@@ -183,6 +186,7 @@ impl TypeChecker {
             type_info: TypeCheckInfo::default(),
             dependency_exports: HashMap::new(),
             param_defaults: HashMap::new(),
+            loop_variables: Vec::new(),
         }
     }
 
@@ -360,6 +364,29 @@ impl TypeChecker {
     /// Handles `Unknown` (error recovery), type variables (generics), and
     /// recursive checks for generics, functions, and tuples.
     #[allow(clippy::only_used_in_recursion)]
+    /// Report a mutation through `target` (`x.f = ..`, `x[i] = ..`, `x.bump()`) when the variable it is rooted in was
+    /// not declared `mut`: rustc rejects the assignment / the mutable borrow. `self` is not an identifier here: whether
+    /// a method may write its own fields is decided by its receiver.
+    pub(crate) fn require_mutable_root(&mut self, target: &Spanned<Expr>, span: Span) {
+        let mut root = target;
+        while let Expr::Field(inner, _) | Expr::Index(inner, _) | Expr::Paren(inner) = &root.node {
+            root = inner;
+        }
+        if let Expr::Ident(name) = &root.node {
+            if self.loop_variables.contains(name) {
+                return;
+            }
+            let immutable = self
+                .symbols
+                .lookup(name)
+                .and_then(|id| self.symbols.get(id))
+                .is_some_and(|sym| matches!(&sym.kind, SymbolKind::Variable(v) if !v.is_mutable));
+            if immutable {
+                self.errors.push(errors::mutation_without_mut(name, span));
+            }
+        }
+    }
+
     pub(crate) fn types_compatible(&self, actual: &ResolvedType, expected: &ResolvedType) -> bool {
         if actual == expected {
             return true;
